@@ -233,6 +233,39 @@ CHECKS = {
             "permutation of residue lists, sort uniqueness for segments, torsion sign relation) + differential run of both real readers "
             "on generated tables in both formats (O3'-P straddling 2.4 A, glycosidic atoms) and on the single-conformer corpus",
   ref="9/C15, 14.8"),
+ "C05": dict(
+  text="Lean theorems (Props.C05, 66) about the exact-rational models of find_pairs (Pairs), find_stackings (Stacking) and of the two "
+       "distance tests that decide strands and gaps (Connect): for EVERY rotation matrix with rational entries (rows orthonormal, det 1), "
+       "every rational translation, every structure size and every parameter record, each decision function returns the same value on "
+       "the moved structure — contacts_move, bcontacts_move (incl. torsion-dependent BPh/BR classes), modelLabels_move, modelPairs_move "
+       "(labels → most_common order → greedy occupation → ranks → sort), specPairs_move / specBph_move (the C03 / C11 verdict on any "
+       "reported list), stackings_move (the reported list is the moved list, element by element), undecided_move, connect_move, "
+       "annotate_rigid_invariant; centroid_equivariant. They rest on algebra proved over an arbitrary commutative ring: dot_rot, cross_rot, "
+       "cross_mirror, triple_rot, binet, det_sq. Converse sanity check: under det = −1 dot products, distances, the cis/trans test and "
+       "the whole base-pair layer are unchanged (contacts_mirror) while triple products and the signed vector·normal product of the "
+       "stacking test change sign (triple_mirror, torsionY_mirror, stacking_vector_mirror; stacking_chiral exhibits a stacking that "
+       "vanishes in the mirror image, so properness cannot be dropped). Atom order: findAtom_perm (duplicate-free names) ⇒ contacts_perm, "
+       "bcontacts_perm, modelPairs_perm, specPairs_perm, stackings_perm. Relabelling: any renaming that preserves the residue order and "
+       "the same-residue test leaves the position-indexed results equal (contacts_relabel, modelLabels_relabel, rankOf_relabel, "
+       "modelPairs_relabel, stackings_relabel). Tie-breaks: greedy_order_independent — under noTiedConflicts every order that "
+       "Counter.most_common can produce gives the same sorted pair list; pairs_independent_of_arrival_order; tie_break_matters shows the "
+       "hypothesis is needed. The REAL annotation and derived secondary structure of two presentations of one structure are compared "
+       "whenever the model finds no decision quantity inside the 1e-6 band on either presentation.",
+  note="The theorems are about the models; C03 / C04 / C11 tie the models to the code and harness/corr/c05.py ties the property itself "
+       "(metamorphic run of the real annotator). Modelled, not verified: IEEE round-off of moved coordinates and numpy/scipy arithmetic "
+       "(the exact invariance is transported to floats by the measured margins); the iteration order of the set returned by "
+       "KDTree.query_pairs — it decided which of several contacts competing for one atom is consumed by BPh/BR detection (the defect "
+       "repaired in /repo: the pairs are now processed in index order, which is presentation independent by construction of the point "
+       "list; that argument is not formalised; the model exposes `contested` atoms and `tied` candidates per input and the harness "
+       "concentrates on them). PDB-vs-mmCIF equality additionally rests on the readers (C08/C15) and on both one_letter_name derivations "
+       "agreeing; it is checked on emitted documents, not proved. Rational rotations are dense in SO(3); real rotations are covered "
+       "through the margins, not by a theorem over R. With gap detection the number of placeholders is a function of number differences "
+       "by design, so only number shifts are compared there.",
+  technique="Lean 4 proof (orthogonal-matrix algebra over commutative rings; one similarity relation StructSim instantiated for motion / "
+            "atom order / relabelling; strong induction on counts for the greedy tie-break) + metamorphic differential run of the real "
+            "annotator on corpus and synthetic structures under 24 exact axis permutations, random SO(3), ±500 A, atom shuffles, "
+            "order-preserving renamings, PDB↔mmCIF emission, with exact-model margins",
+  ref="9/C05, 14.8"),
 }
 
 NOT_YET = {}
